@@ -25,7 +25,7 @@ func c12Scenarios(tier string) []*hist.Scenario {
 	for _, noPres := range []bool{false, true} {
 		for _, th := range []int64{hist.Big, 1} {
 			for _, al := range pairs(presOps) {
-				if tier == "quick" && len(al) == 2 && th == 1 {
+				if tier == "quick" && len(al) == 2 && (th == 1 || noPres) {
 					continue
 				}
 				tag := "presence"
